@@ -263,3 +263,74 @@ class CFG:
                 IN[b] = acc
                 OUT[b] = out_of(b, acc)
         return IN
+
+    # -- condition edges ----------------------------------------------------------------------
+    def cond_blocks(self, node_id):
+        """blocks whose terminator condition is node `node_id`, possibly under leading '!': [(block, negated)]"""
+        out = []
+        for b in self.blocks:
+            c = self.cond_node(b)
+            if c is None or len(self.succs[b]) != 2:
+                continue
+            c = unwrap(c)
+            neg = False
+            while c is not None and c.get("k") == "unop" and c.get("op") == "!":
+                c = unwrap(c["sub"])
+                neg = not neg
+            # the block that decides `A && B` / `A || B` as a whole evaluates its rightmost operand
+            while c is not None and c.get("k") == "binop" and c.get("op") in ("&&", "||") and not neg:
+                c = unwrap(c["rhs"])
+                while c is not None and c.get("k") == "unop" and c.get("op") == "!":
+                    c = unwrap(c["sub"])
+                    neg = not neg
+            while c is not None and c.get("k") == "cast":
+                c = unwrap(c["sub"])
+            if c is not None and c.get("id") == node_id:
+                out.append((b, neg))
+        return out
+
+    def reachable_blocks(self, removed_edges=(), assume=None):
+        """blocks reachable from entry when the given (block, succ index) edges are removed and edges contradicted by
+        assume(cond node) -> True/False/None are pruned"""
+        removed = set(removed_edges)
+        seen = set()
+        work = [self.entry]
+        while work:
+            b = work.pop()
+            if b in seen:
+                continue
+            seen.add(b)
+            truth = None
+            if assume is not None and len(self.succs[b]) == 2:
+                c = self.cond_node(b)
+                if c is not None:
+                    c = unwrap(c)
+                    neg = False
+                    while c.get("k") == "unop" and c.get("op") == "!":
+                        c = unwrap(c["sub"])
+                        neg = not neg
+                    v = assume(c)
+                    if v is not None:
+                        truth = (v != neg)
+            for si, s in enumerate(self.succs[b]):
+                if s is None or (b, si) in removed:
+                    continue
+                if truth is not None and (si == 0) != truth:
+                    continue
+                work.append(s)
+        return seen
+
+    def edge_required(self, cond_node_id, value, target_node_id, assume=None):
+        """True iff the target node is reachable only through the edge on which the condition node evaluates to `value`
+        (i.e. unreachable once that edge is removed), and reachable at all.  None if the condition is no terminator."""
+        cbs = self.cond_blocks(cond_node_id)
+        if not cbs or target_node_id not in self.where:
+            return None
+        tb = self.where[target_node_id][0]
+        if tb not in self.reachable_blocks(assume=assume):
+            return False
+        removed = []
+        for b, neg in cbs:
+            cond_val = (value != neg)
+            removed.append((b, 0 if cond_val else 1))
+        return tb not in self.reachable_blocks(removed_edges=removed, assume=assume)
